@@ -1,5 +1,5 @@
 """C18 - cluster mutex is exclusive; admin mutations serialise with gap-free versions (DESIGN 5/C18)."""
-from lib.vlib import jdump
+from lib.vlib import jdump, Inconclusive
 from props._clustertv import split_scenarios, validate_scenarios
 
 PKG_CLUSTER = "pkg/cluster"
@@ -36,16 +36,15 @@ def run(ctx):
     ctx.assumptions += ["etcd and go.etcd.io/etcd/client/v3/concurrency are trusted; no lease expiry (the member lease TTL is 285 years)",
                         "critical section = [return of Lock, invocation of Unlock] (conservative: an observed overlap is a real one)",
                         "admin API driven in-process through the server's chi router (no TCP), mock supervisor with two test-only kinds"]
-    if ctx.phase("mc"):
-        _mc_mutex(ctx)
-    if ctx.phase("tvmutex"):
-        _tv_mutex(ctx)
-    if ctx.phase("mcapi"):
-        _mc_api(ctx)
-    if ctx.phase("mbtapi"):
-        _mbt_api(ctx)
-    if ctx.phase("tvapi"):
-        _tv_api(ctx)
+    # the phases are independent: one that ends inconclusive (harness trouble, time-out) must not keep the others
+    # from running and reporting
+    for name, fn in (("mc", _mc_mutex), ("tvmutex", _tv_mutex), ("mcapi", _mc_api), ("mbtapi", _mbt_api), ("tvapi", _tv_api)):
+        if not ctx.phase(name):
+            continue
+        try:
+            fn(ctx)
+        except Inconclusive as ex:
+            ctx.defer_inconclusive("phase %s: %s" % (name, ex))
 
 
 # ------------------------------------------------------------------------------------------ mutex
@@ -71,13 +70,13 @@ def _mc_mutex(ctx):
 
 
 def _tv_mutex(ctx):
-    na, nb = (6, 2) if ctx.quick else (40, 4)
+    na, nh, nb = (4, 2, 2) if ctx.quick else (30, 20, 4)
     nsec = 1 if ctx.quick else 2
     tp = ctx.path("c18_mutex.ndjson")
     ev = None
     for attempt in range(2):
-        rc, out = ctx.go_test(PKG_CLUSTER, "^TestVerifC18Mutex$", env={"VERIF_OUT": tp, "VERIF_NA": na, "VERIF_NB": nb,
-                                                                      "VERIF_SECONDARIES": nsec}, timeout=900)
+        rc, out = ctx.go_test(PKG_CLUSTER, "^TestVerifC18Mutex$", env={"VERIF_OUT": tp, "VERIF_NA": na, "VERIF_NH": nh, "VERIF_NB": nb,
+                                                                      "VERIF_SECONDARIES": nsec}, timeout=1500)
         ev = ctx.read_ndjson(tp)
         if ev and not any(e.get("ev") == "setup-failed" for e in ev) and rc == 0:
             break
@@ -191,14 +190,16 @@ def _tv_api(ctx):
         rc, out = ctx.go_test(PKG_API, "^TestVerifC18ApiConc$", env={"VERIF_OUT": tp, "VERIF_N": n, "VERIF_MEMBERS": 2}, timeout=900,
                               race=not ctx.quick)
         ev = ctx.read_ndjson(tp)
-        bad = [e for e in ev if e.get("ev") == "setup-failed" or e.get("st") == "err5xx"]
+        bad = [e for e in ev if e.get("ev") == "setup-failed"]
         if rc == 0 and ev and not bad:
             break
     if "DATA RACE" in out:
         ctx.violation({"kind": "api-race"}, "data race reported by the Go race detector under concurrent admin requests", out[-4000:])
         return
     if rc != 0 or not ev or bad:
-        ctx.inconclusive("C18 admin-API concurrent harness failed (5xx replies or setup):\n" + out[-2000:] + jdump(bad[:3]))
+        ctx.inconclusive("C18 admin-API concurrent harness failed:\n" + out[-2000:] + jdump(bad[:3]))
+    # 5xx replies ("error"): the contract lets any request fail that way without effect; they are counted
+    ctx.cov["api_5xx_replies"] = sum(1 for e in ev if e.get("st") == "error")
     scen = split_scenarios(ev, keep=lambda e: e.get("ev") in ("inv", "ret", "final"))
     ctx.evals(sum(1 for e in ev if e.get("ev") == "ret"))
 
